@@ -2,78 +2,84 @@
 
 package obfs4
 
+// Accessors to private state, by field NAME at run time (package peek): they
+// keep compiling when private fields or types are renamed; ok=false / nil
+// means "unavailable" and the harness falls back to its black-box oracles.
+
 import (
-	"gitlab.com/yawning/obfs4.git/common/replayfilter"
 	"bytes"
 	"net"
 
 	"gitlab.com/yawning/obfs4.git/common/probdist"
-	"gitlab.com/yawning/obfs4.git/transports/obfs4/framing"
+	"gitlab.com/yawning/obfs4.git/common/replayfilter"
+	"gitlab.com/yawning/obfs4.git/internal/zzverif/peek"
 )
 
-// VerifPadBurst runs the real padding routine on a burst that already holds
-// tail bytes, with a real encoder keyed by key, and returns what it appended.
-func VerifPadBurst(key []byte, tail, target int) (appended []byte, err error) {
-	conn := &obfs4Conn{encoder: framing.NewEncoder(key)}
-	var burst bytes.Buffer
-	burst.Write(make([]byte, tail))
-	err = conn.padBurst(&burst, target)
-	return burst.Bytes()[tail:], err
+func verifDist(c any, name string) *probdist.WeightedDist {
+	v, ok := peek.Iface(c, name)
+	if !ok {
+		return nil
+	}
+	d, _ := v.(*probdist.WeightedDist)
+	return d
 }
 
 // VerifDists returns the value tables (absolute values) of a connection's
 // length and IAT distributions.
 func VerifDists(c net.Conn) (lenVals, iatVals []int, ok bool) {
-	oc, isO := c.(*obfs4Conn)
-	if !isO {
+	ld := verifDist(c, "lenDist")
+	if ld == nil {
 		return nil, nil, false
 	}
-	lenVals = probdist.VerifValues(oc.lenDist)
-	if oc.iatDist != nil {
-		iatVals = probdist.VerifValues(oc.iatDist)
+	if lenVals, ok = probdist.VerifValuesOK(ld); !ok {
+		return nil, nil, false
+	}
+	if id := verifDist(c, "iatDist"); id != nil {
+		iatVals, _ = probdist.VerifValuesOK(id)
 	}
 	return lenVals, iatVals, true
 }
 
 // VerifBuffered returns the sizes of the per-connection receive buffers.
 func VerifBuffered(c net.Conn) (raw, decoded int, ok bool) {
-	oc, isO := c.(*obfs4Conn)
-	if !isO {
+	a, ok1 := peek.Iface(c, "receiveBuffer")
+	b, ok2 := peek.Iface(c, "receiveDecodedBuffer")
+	ba, isA := a.(*bytes.Buffer)
+	bb, isB := b.(*bytes.Buffer)
+	if !ok1 || !ok2 || !isA || !isB || ba == nil || bb == nil {
 		return 0, 0, false
 	}
-	return oc.receiveBuffer.Len(), oc.receiveDecodedBuffer.Len(), true
+	return ba.Len(), bb.Len(), true
 }
+
+type verifBytes32 interface{ Bytes() *[32]byte }
+type verifBytes20 interface{ Bytes() *[20]byte }
 
 // VerifClientArgs exposes what ParseArgs extracted.
 func VerifClientArgs(a any) (nodeID, publicKey []byte, iatMode int, ok bool) {
-	ca, isCA := a.(*obfs4ClientArgs)
-	if !isCA {
+	n, ok1 := peek.Iface(a, "nodeID")
+	p, ok2 := peek.Iface(a, "publicKey")
+	m, ok3 := peek.Int(a, "iatMode")
+	nb, isN := n.(verifBytes20)
+	pb, isP := p.(verifBytes32)
+	if !ok1 || !ok2 || !ok3 || !isN || !isP {
 		return nil, nil, 0, false
 	}
-	return ca.nodeID.Bytes()[:], ca.publicKey.Bytes()[:], ca.iatMode, true
+	return nb.Bytes()[:], pb.Bytes()[:], m, true
 }
 
 // VerifCloseDelay exposes the per-bridge close delay (seconds).
-func VerifCloseDelay(sf any) (int, bool) {
-	f, isF := sf.(*obfs4ServerFactory)
-	if !isF {
-		return 0, false
-	}
-	return f.closeDelay, true
-}
+func VerifCloseDelay(sf any) (int, bool) { return peek.Int(sf, "closeDelay") }
 
 // VerifLenDist returns the connection's length distribution object.
-func VerifLenDist(c net.Conn) *probdist.WeightedDist {
-	if oc, ok := c.(*obfs4Conn); ok {
-		return oc.lenDist
-	}
-	return nil
-}
+func VerifLenDist(c net.Conn) *probdist.WeightedDist { return verifDist(c, "lenDist") }
 
 // VerifReplayFilter returns the server factory's replay filter.
 func VerifReplayFilter(sf any) *replayfilter.ReplayFilter {
-	if f, ok := sf.(*obfs4ServerFactory); ok {
-		return f.replayFilter
+	v, ok := peek.Iface(sf, "replayFilter")
+	if !ok {
+		return nil
 	}
-	return nil
+	f, _ := v.(*replayfilter.ReplayFilter)
+	return f
 }
